@@ -311,7 +311,7 @@ class Emitter:
 
     def _ty(self, q):
         q0 = q
-        q = q.strip()
+        q = q.strip().replace('(anonymous namespace)', '(anon)')
         ref = False
         if q.endswith('&&'): q = q[:-2].strip(); ref = 'rv'
         elif q.endswith('&'): q = q[:-1].strip(); ref = True
@@ -339,7 +339,7 @@ class Emitter:
             return Ty('void' if q == 'void' else 'scalar', BUILTIN[q], ref=ref, const=const)
         if q in self.typedefs:
             t = self.ty(self.typedefs[q]); t.ref = ref or t.ref; t.const = const or t.const; return t
-        for ns in ('ccl::', 'ccl::rslang::', 'ccl::semantic::', 'ccl::graph::', 'ccl::lang::', 'ccl::ops::', 'ccl::src::', 'ccl::change::'):
+        for ns in ('ccl::', 'ccl::object::', 'ccl::rslang::', 'ccl::semantic::', 'ccl::graph::', 'ccl::lang::', 'ccl::ops::', 'ccl::src::', 'ccl::change::'):
             if ns + q in self.typedefs:
                 t = self.ty(self.typedefs[ns + q]); t.ref = ref or t.ref; t.const = const or t.const; return t
         m = re.fullmatch(r'(?:std::)?(?:basic_string_view<char(?:, std::char_traits<char>)?>|string_view)', q)
